@@ -1,1 +1,104 @@
-From PAFC20 Require Import Gen Model.
+(* Non-vacuity examples and the refutation witness for C20. *)
+From Coq Require Import List String Bool ZArith QArith Permutation Lia.
+From PAFC20 Require Import Gen Model Proofs1 Proofs2 Proofs3 Proofs4.
+Import ListNotations.
+Open Scope list_scope.
+Open Scope string_scope.
+
+(* the hypotheses on the comparisons are satisfiable: integers, and (Proofs4.Q_order_ok) rationals *)
+Lemma Z_order_ok : order_ok Z.leb Z.eqb.
+Proof.
+  constructor; intros.
+  - apply Z.eqb_refl.
+  - rewrite Z.eqb_sym. assumption.
+  - apply Z.eqb_eq in H, H0. apply Z.eqb_eq. congruence.
+  - destruct (Z.leb_spec a b); [left; reflexivity | right; apply Z.leb_le; lia].
+  - apply Z.leb_le in H, H0. apply Z.leb_le. lia.
+  - apply Z.leb_le in H, H0. apply Z.eqb_eq. lia.
+Qed.
+
+(* a three-point series over Z, supplied out of order; the "routine" is piecewise-constant
+   (value of the nearest abscissa on the left), enough to see alignment of x and y *)
+Definition g (t c s : Z) : tree Z :=
+  TO [("t", TF t); ("gaussian", TO [("centre", TF c); ("sigma", TF s); ("_cache", TF 99%Z)]); ("n", TI 7%Z)].
+Definition series : list (tree Z) := [g 20 200 5; g 0 100 5; g 10 150 5]%Z.
+Definition left_value : list Z -> list Z -> Z -> option Z :=
+  fix go xs ys v := match xs, ys with
+                    | x :: xs', y :: ys' => if (x <=? v)%Z then (match go xs' ys' v with Some r => Some r | None => Some y end) else None
+                    | _, _ => None
+                    end.
+Definition run (assign : bool) insts qv := interp_at Z.leb Z.eqb (fun z => z) left_value assign insts ["t"] qv.
+
+Example series_hypotheses :
+  keys_of (fun z => z) ["t"] series = Some [20; 0; 10]%Z /\ distinct Z.eqb [20; 0; 10]%Z /\
+  same_shape (fpaths (g 0 0 0)) series.
+Proof.
+  split; [reflexivity|]. split.
+  - split.
+    + repeat constructor; simpl; intuition discriminate.
+    + intros a b Ha Hb N. apply Z.eqb_neq. exact N.
+  - intros t [<-|[<-|[<-|[]]]]; repeat split; reflexivity.
+Qed.
+
+Example known_point_returns_the_instance : run false series (TF 10%Z) = OSame 2.
+Proof. vm_compute. reflexivity. Qed.
+
+Example int_query_matches_too : run false series (TI 10%Z) = OSame 2.
+Proof. vm_compute. reflexivity. Qed.
+
+Example off_node_current_code :
+  run false series (TF 15%Z) =
+  ONew (TO [("t", TF 10%Z); ("gaussian", TO [("centre", TF 150%Z); ("sigma", TF 5%Z); ("_cache", TF 99%Z)]); ("n", TI 7%Z)]).
+Proof. vm_compute. reflexivity. Qed.
+
+Example off_node_result_kept :
+  run true series (TF 15%Z) =
+  ONew (TO [("t", TF 15%Z); ("gaussian", TO [("centre", TF 150%Z); ("sigma", TF 5%Z); ("_cache", TF 99%Z)]); ("n", TI 7%Z)]).
+Proof. vm_compute. reflexivity. Qed.
+
+Example any_order_same_leaves :
+  run false (rev series) (TF 15%Z) =
+  ONew (TO [("t", TF 10%Z); ("gaussian", TO [("centre", TF 150%Z); ("sigma", TF 5%Z); ("_cache", TF 99%Z)]); ("n", TI 7%Z)])
+  /\ Permutation series (rev series).
+Proof. split; [vm_compute; reflexivity | apply Permutation_rev]. Qed.
+
+(* floats inside a tuple are not reached by the walk: they stay those of the first instance *)
+Example tuple_leaves_not_interpolated :
+  interp_at Z.leb Z.eqb (fun z => z) left_value false
+    [TO [("t", TF 0%Z); ("centre", TT [TF 1%Z; TF 2%Z])]; TO [("t", TF 10%Z); ("centre", TT [TF 11%Z; TF 12%Z])]] ["t"] (TF 10%Z) = OSame 1
+  /\ interp_at Z.leb Z.eqb (fun z => z) left_value false
+    [TO [("t", TF 0%Z); ("centre", TT [TF 1%Z; TF 2%Z])]; TO [("t", TF 10%Z); ("centre", TT [TF 11%Z; TF 12%Z])]] ["t"] (TF 12%Z)
+     = ONew (TO [("t", TF 10%Z); ("centre", TT [TF 1%Z; TF 2%Z])]).
+Proof. split; vm_compute; reflexivity. Qed.
+
+(* the refutation: an int-typed interpolation variable is never touched when the result of the final
+   replacing_for_path is discarded, whatever the routine does *)
+Lemma variable_refuted_witness :
+  exists (insts : list (tree Z)) (q : list string) (qv r : tree Z),
+    interp_at Z.leb Z.eqb (fun z => z) (fun _ _ v => Some v) false insts q qv = ONew r /\
+    get (qkeys q) r <> Some qv.
+Proof.
+  exists [TO [("t", TI 0%Z); ("c", TF 1%Z)]; TO [("t", TI 2%Z); ("c", TF 3%Z)]], ["t"], (TF 1%Z),
+         (TO [("t", TI 0%Z); ("c", TF 1%Z)]).
+  split; [vm_compute; reflexivity | vm_compute; discriminate].
+Qed.
+
+(* exact least squares: defined on two different abscissae, exact on a line, None on a single abscissa *)
+Example lsq_on_a_line : option_map Qred (linreg_Q [0; 1; 2] [1; 3; 5] 4) = Some 9.
+Proof. vm_compute. reflexivity. Qed.
+Example lsq_not_on_a_line : option_map Qred (linreg_Q [0; 1; 2] [0; 1; 4] 3) = Some (17 # 3).
+Proof. vm_compute. reflexivity. Qed.
+Example lsq_single_abscissa : linreg_Q [1; 1] [2; 3] 0 = None.
+Proof. vm_compute. reflexivity. Qed.
+Example affine_hypothesis_holds : Forall2 (affine 2 1) [0; 1; 2] [1; 3; 5].
+Proof. repeat constructor; unfold affine; reflexivity. Qed.
+
+(* the Q instance end to end: a series that is linear in t, interpolated with least squares *)
+Definition gq (t c : Q) : tree Q := TO [("t", TF t); ("centre", TF c)].
+Example linear_series_Q :
+  match interp_at_Q linreg_Q true [gq 2 5; gq 0 1; gq 1 3] ["t"] (TF (7 # 2)) with
+  | ONew r => option_map (fun x => match x with TF y => Some (Qred y) | _ => None end) (get [KS "centre"] r) = Some (Some 8)
+              /\ get [KS "t"] r = Some (TF (7 # 2))
+  | _ => False
+  end.
+Proof. vm_compute. split; reflexivity. Qed.
